@@ -14,7 +14,7 @@ using namespace opentelemetry;
 #ifndef LEN
 #define LEN 3
 #endif
-extern "C" int verif_abort_expected;
+extern "C" unsigned verif_abort_expected;
 static int sgn(int x) { return x < 0 ? -1 : (x > 0 ? 1 : 0); }
 // symbolic byte string of symbolic length <= LEN in an exactly sized heap object (NULs allowed)
 static char *any_bytes(size_t &n) {
